@@ -136,3 +136,40 @@ Theorem C05_ids_nonempty : forall c es ids,
               seq_log c ids es = blocks_with c es idl.
 Proof. exact seq_log_blocks. Qed.
 Print Assumptions C05_ids_nonempty.
+
+(* The same at the connection: under every complete schedule what has reached
+   the connection plus what the encoder still buffers is the concatenation, in
+   lock order, of the tokens of the calls' elements (nothing lost, duplicated or
+   reordered between encoder and connection) — and if every call is one that
+   flushes (all but Encode/EncodeElement of a WriterTo value) the connection
+   holds exactly those complete elements. *)
+Theorem C05_wire_under_all_schedules : forall c ids calls elems tr g,
+  Forall2 (fun cl ek => denotes cl (fst ek) (snd ek) /\ wf_tree (fst ek)) calls elems ->
+  run (step c) (ginit ids (map call_thread calls)) tr = Some g ->
+  finished g = true ->
+  let es := map (fun i => nth i elems no_elem) (map fst (g_acq g)) in
+  map WTok (seq_tokens c ids es) = wire (g_out g) ++ map WTok (pending_of [] (o_log (g_out g))) /\
+  (Forall (fun ek => (1 <= snd ek)%nat) elems -> wire (g_out g) = map WTok (seq_tokens c ids es)).
+Proof. exact wire_all_schedules. Qed.
+Print Assumptions C05_wire_under_all_schedules.
+
+(* The constants the model shares with the source (coq/gen/SessOut.v is written
+   by the translator from session.go, session_message.go, session_presence.go,
+   stanza/stanza.go, internal/ns/ns.go and internal/attr/idgen.go on every run):
+   the elements the stanza encoder completes are iq / message / presence in no
+   name space or a content name space; SendIQ / SendMessage / SendPresence accept
+   the same names; the encoder looks at the attributes id, from and xmlns; the
+   content name spaces are non-empty and distinct; generated ids have positive
+   length. An edit of the source that changes one of them breaks this proof. *)
+Theorem C05_source_tables :
+  so_stanza_locals = map kind_local [KIQ; KMessage; KPresence] /\
+  same_set so_stanza_spaces [[]; so_ns_client; so_ns_server] = true /\
+  length so_kind_tables = 3%nat /\
+  forallb (fun pk => list_eqb bytes_eqb (fst (fst pk)) [kind_local (snd pk)] && same_set (snd (fst pk)) so_stanza_spaces)
+          (combine so_kind_tables [KIQ; KMessage; KPresence]) = true /\
+  so_se_literals = [s_id; s_from; s_xmlns] /\
+  so_ns_xml = str "http://www.w3.org/XML/1998/namespace" /\
+  so_ns_client <> [] /\ so_ns_server <> [] /\ so_ns_client <> so_ns_server /\
+  (0 < so_id_len)%nat.
+Proof. exact source_tables. Qed.
+Print Assumptions C05_source_tables.
